@@ -1102,20 +1102,55 @@ func c19Goroutines(c *Ctx) {
 func c19Timers(c *Ctx) {
 	c.Rule("timers")
 	n := 0
-	for _, fn := range c.P.Funcs {
-		has := false
-		for _, b := range fn.Blocks {
-			for _, in := range b.Instrs {
-				if cc, isC := in.(ssa.CallInstruction); isC {
-					if cal := calleeOf(cc.Common()); cal != nil && qualName(cal) == "time.NewTimer" {
-						has = true
+	ix := BuildIndex(c.P)
+	if c.P.seamField == nil {
+		c.P.buildSeams()
+	}
+	// functions that reach a target through a collaborator seam (a function-typed field bound to it where the object
+	// is built)
+	seamUsers := func(target string) []*ssa.Function {
+		var out []*ssa.Function
+		for key, s := range c.P.seamField {
+			if s.bad || s.fn == nil || qualName(s.fn) != target {
+				continue
+			}
+			for _, fn := range c.P.Funcs {
+				for _, b := range fn.Blocks {
+					for _, in := range b.Instrs {
+						if fa, isFA := in.(*ssa.FieldAddr); isFA {
+							if k, _ := fieldKey(fa.X.Type(), fa.Field); k == key {
+								if r, _, _ := addrUses(fa, map[ssa.Value]bool{}); r {
+									out = append(out, fn)
+								}
+							}
+						}
 					}
 				}
 			}
 		}
-		if !has {
+		return out
+	}
+	var work []*ssa.Function
+	for _, fn := range c.P.Funcs {
+		for _, b := range fn.Blocks {
+			for _, in := range b.Instrs {
+				if cc, isC := in.(ssa.CallInstruction); isC {
+					if cal := calleeOf(cc.Common()); cal != nil && qualName(cal) == "time.NewTimer" {
+						work = append(work, fn)
+					}
+				}
+			}
+		}
+	}
+	work = append(work, seamUsers("time.NewTimer")...)
+	done := map[*ssa.Function]bool{}
+	for len(work) > 0 {
+		fn := work[0]
+		work = work[1:]
+		if done[fn] {
 			continue
 		}
+		done[fn] = true
 		ev := NewEvaluator(c.P, EvalConfig{MaxVisits: 3, MaxPaths: 50000})
 		ps := ev.Run(fn)
 		name, pos := c.fn(fn), c.P.FuncPos(fn)
@@ -1125,6 +1160,7 @@ func c19Timers(c *Ctx) {
 		}
 		ok := true
 		timers := 0
+		factory := false
 		for _, p := range ps {
 			for _, t := range p.Events() {
 				if !isCall(t, "NewTimer") {
@@ -1132,6 +1168,21 @@ func c19Timers(c *Ctx) {
 				}
 				timers++
 				tm := t.Res[0]
+				// a factory: the timer is handed to the caller (possibly wrapped); the obligation is the caller's
+				handedOut := false
+				for _, r := range p.Rets {
+					if r != nil && (r == tm || r.Contains(tm)) {
+						handedOut = true
+					}
+				}
+				if handedOut && p.Exit == ExitReturn {
+					if !factory {
+						factory = true
+						work = append(work, ix.Callers[origin(fn)]...)
+						work = append(work, seamUsers(qualName(fn))...)
+					}
+					continue
+				}
 				released := false
 				for _, e := range p.Events() {
 					if e.Idx < t.Idx {
@@ -1164,6 +1215,10 @@ func c19Timers(c *Ctx) {
 					c.Fail(name, c.P.Pos(t.Instr.Pos()), "a timer is neither received from nor stopped on some path: it stays armed after the wait ended", pathTrace(ev, p))
 				}
 			}
+		}
+		if factory && ok {
+			c.Ok(name, pos, "hands the timer it creates to its caller: checked there")
+			continue
 		}
 		n++
 		if ok {
